@@ -42,6 +42,7 @@ func RunShards(r *Report, names []string, fn func(name string, r *Report)) {
 	var wg sync.WaitGroup
 	var mu sync.Mutex
 	failed := ""
+	partials := make([]*Report, len(names))
 	for i, name := range names {
 		wg.Add(1)
 		sem <- struct{}{}
@@ -84,17 +85,26 @@ func RunShards(r *Report, names []string, fn func(name string, r *Report)) {
 				fail(fmt.Sprintf("shard %q failed: %v %v\n%s", name, err, rerr, tail))
 				return
 			}
-			var pr Report
-			if err := json.Unmarshal(b, &pr); err != nil {
+			pr := new(Report)
+			if err := json.Unmarshal(b, pr); err != nil {
 				fail(fmt.Sprintf("shard %q: bad partial report: %v", name, err))
 				return
 			}
-			r.Merge(&pr)
+			mu.Lock()
+			partials[i] = pr
+			mu.Unlock()
 		}(i, name)
 	}
 	wg.Wait()
 	if failed != "" {
 		Fatal("%s", failed)
+	}
+	// merge in shard order (not completion order): the violation kept per class, the samples
+	// and the scenario table are then identical from run to run
+	for _, pr := range partials {
+		if pr != nil {
+			r.Merge(pr)
+		}
 	}
 }
 
